@@ -159,6 +159,11 @@ Ltac bm :=
   | |- context [match ?x with _ => _ end] => destruct x eqn:?
   end.
 
+Ltac bmh H :=
+  match type of H with
+  | context [match ?x with _ => _ end] => destruct x eqn:?
+  end.
+
 Ltac ext_solve :=
   unfold ext_nc; simpl; repeat rewrite <- app_assoc; simpl;
   first [ solve [eexists; split; [reflexivity|reflexivity]]
@@ -256,4 +261,206 @@ Lemma after_launch_quiet k pl r :
 Proof.
   eapply quiet_trans; [apply registration_quiet|].
   eapply quiet_trans; [apply initialization_quiet|apply liveness_quiet].
+Qed.
+
+(* ---------------------------------------------------------------- Launch *)
+
+(* the calls Launch.Reconcile makes *)
+Definition launch_ex (k : cfg) (pl : plan) (r : rs) : list eff :=
+  match c_l (norm (r_im r)) with
+  | LTrue => []
+  | _ =>
+    match cache_hit k r with
+    | Some _ => []
+    | None =>
+      match f_create pl with
+      | POk => [ECreate POk]
+      | PCreateErr => [ECreate PCreateErr]
+      | PGeneric => [ECreate PGeneric]
+      | o => [ECreate o; EDelLaunch (eff_wr (r_pc r) (f_del_launch pl))]
+      end
+    end
+  end.
+
+Lemma cache_hit_norm k r : cache_hit k (set_im r (norm (r_im r))) = cache_hit k r.
+Proof. reflexivity. Qed.
+
+Lemma launch_effs k pl r : r_effs (launch k pl r) = r_effs r ++ launch_ex k pl r.
+Proof.
+  unfold launch, launch_ex, populate, err_of_wr. rewrite cache_hit_norm. simpl.
+  repeat bm; simpl; repeat rewrite <- app_assoc; simpl; try rewrite app_nil_r; try reflexivity; try congruence.
+Qed.
+
+Definition deleted_by_launch (k : cfg) (pl : plan) (r : rs) : bool :=
+  existsb (eff_eqb (EDelLaunch WOk)) (launch_ex k pl r).
+
+Lemma launch_pc k pl r :
+  r_pc (launch k pl r) = if deleted_by_launch k pl r then del_claim (r_pc r) else r_pc r.
+Proof.
+  unfold deleted_by_launch. unfold launch, launch_ex, populate, err_of_wr. rewrite cache_hit_norm. simpl.
+  destruct (match c_l (r_im r) with LAbsent => LAwait | x => x end); try reflexivity;
+    destruct (cache_hit k r); try reflexivity;
+    destruct (f_create pl); simpl; try reflexivity;
+    destruct (eff_wr (r_pc r) (f_del_launch pl)); reflexivity.
+Qed.
+
+Lemma launch_misc k pl r :
+  r_now (launch k pl r) = r_now r /\ r_nd (launch k pl r) = r_nd r /\ r_dp (launch k pl r) = r_dp r /\
+  c_fin (r_im (launch k pl r)) = c_fin (r_im r) /\ c_del (r_im (launch k pl r)) = c_del (r_im r) /\
+  c_term (r_im (launch k pl r)) = c_term (r_im r).
+Proof.
+  unfold launch, populate, err_of_wr. rewrite cache_hit_norm. simpl.
+  repeat bm; simpl; repeat split; reflexivity.
+Qed.
+
+Lemma norm_l_true c : c_l (norm c) = LTrue <-> c_l c = LTrue.
+Proof. unfold norm; simpl. destruct (c_l c); split; intros H; try discriminate; reflexivity. Qed.
+
+(* the launch cache and the provider, as Launch leaves them *)
+Lemma launch_cache k pl r :
+  let r' := launch k pl r in
+  (c_l (r_im r) = LTrue -> r_made r' = r_made r /\ r_ch r' = None /\ c_l (r_im r') = LTrue /\ c_pid (r_im r') = c_pid (r_im r)) /\
+  (c_l (r_im r) <> LTrue -> forall p, cache_hit k r = Some p ->
+     r_made r' = r_made r /\ r_ch r' <> None /\ c_l (r_im r') = LTrue /\ c_pid (r_im r') <> None) /\
+  (c_l (r_im r) <> LTrue -> cache_hit k r = None ->
+     (r_made r' = S (r_made r) /\ r_ch r' <> None /\ c_l (r_im r') = LTrue /\ c_pid (r_im r') <> None /\
+      launch_ex k pl r = [ECreate POk]) \/
+     (r_made r' = r_made r /\ r_ch r' = r_ch r /\ c_l (r_im r') <> LTrue /\ c_pid (r_im r') = c_pid (r_im r) /\
+      creates (launch_ex k pl r) = 0%nat)).
+Proof.
+  unfold launch, launch_ex, populate, err_of_wr. rewrite cache_hit_norm. simpl.
+  split; [|split].
+  - intros H. rewrite H. simpl. rewrite ?H. repeat split; simpl; rewrite ?H; reflexivity.
+  - intros H p Hp. rewrite Hp. assert (Hn : c_l (norm (r_im r)) <> LTrue) by (intros X; apply H, norm_l_true, X).
+    simpl in Hn. destruct (match c_l (r_im r) with LAbsent => LAwait | x => x end) eqn:E; try congruence;
+      simpl; (split; [reflexivity|split; [congruence|split; [reflexivity|congruence]]]).
+  - intros H Hp. rewrite Hp. assert (Hn : c_l (norm (r_im r)) <> LTrue) by (intros X; apply H, norm_l_true, X).
+    simpl in Hn.
+    destruct (match c_l (r_im r) with LAbsent => LAwait | x => x end) eqn:E; try congruence;
+    destruct (f_create pl); simpl;
+      try (left; (split; [reflexivity|split; [congruence|split; [reflexivity|split; [congruence|reflexivity]]]]));
+      try (right; destruct (eff_wr (r_pc r) (f_del_launch pl)); simpl;
+           (split; [reflexivity|split; [reflexivity|split; [congruence|split; [reflexivity|reflexivity]]]])).
+Qed.
+
+(* ---------------------------------------------------------------- the final patches *)
+
+Lemma finish_spec pl st r r' q : finish pl st r = (r', q) ->
+  r_ch r' = r_ch r /\ r_made r' = r_made r /\ r_nd r' = r_nd r /\ ext_nc r r' /\
+  (r_pc r' = r_pc r \/ exists p, r_pc r = Some p /\ r_pc r' = Some (merge p st (r_im r))).
+Proof.
+  unfold finish. intros H.
+  repeat bmh H; inversion H; subst; clear H; simpl;
+    (split; [reflexivity|split; [reflexivity|split; [reflexivity|split; [ext_solve|]]]]);
+    try (left; reflexivity).
+  destruct (r_pc r) as [p|] eqn:E; simpl in *; [right|left; reflexivity].
+  exists p. split; reflexivity.
+Qed.
+
+Lemma merge_flags p st im : c_fin (merge p st im) = c_fin p /\ c_del (merge p st im) = c_del p.
+Proof. unfold merge. repeat bm; simpl; split; reflexivity. Qed.
+
+(* ---------------------------------------------------------------- one reconcile, summarised *)
+
+Lemma god_del_claim p : gone_or_deleting (del_claim p) = true.
+Proof. destruct p as [c|]; simpl; [|reflexivity]. destruct (c_fin c); reflexivity. Qed.
+
+Lemma god_pc_rel p p' : pc_rel p p' -> gone_or_deleting p = true -> gone_or_deleting p' = true.
+Proof. intros [->| ->] H; [exact H|apply god_del_claim]. Qed.
+
+Lemma nocreate_cap post l : nocreate l = true -> cap_deletes_b post l = true.
+Proof.
+  induction l as [|a l IH]; simpl; [reflexivity|]. rewrite Bool.andb_true_iff. intros [Ha Hl].
+  destruct a; simpl in Ha; try discriminate; apply IH; exact Hl.
+Qed.
+
+Lemma cap_app_nocreate post l m : nocreate l = true -> cap_deletes_b post (l ++ m) = cap_deletes_b post m.
+Proof.
+  induction l as [|a l IH]; simpl; [reflexivity|]. rewrite Bool.andb_true_iff. intros [Ha Hl].
+  destruct a; simpl in Ha; try discriminate; apply IH; exact Hl.
+Qed.
+
+Lemma guarded_app_nocreate have l m :
+  nocreate l = true -> create_guarded_b have m = true -> create_guarded_b have (l ++ m) = true.
+Proof.
+  revert have. induction l as [|a l IH]; intros have; simpl; [auto|]. rewrite Bool.andb_true_iff. intros [Ha Hl] Hm.
+  destruct a as [w| | | | | | | | | | | | | | ]; simpl in Ha; try discriminate; try (apply IH; assumption).
+  destruct w; try (apply IH; assumption).
+  apply IH; [exact Hl|]. apply create_guarded_b_iff, create_guarded_true.
+Qed.
+
+Lemma guarded_true l : create_guarded_b true l = true.
+Proof. apply create_guarded_b_iff, create_guarded_true. Qed.
+
+Lemma nocreate_guarded have l : nocreate l = true -> create_guarded_b have l = true.
+Proof. intros H. rewrite <- (app_nil_r l). apply guarded_app_nocreate; [exact H|reflexivity]. Qed.
+
+(* main_path: effects = what was logged before ++ Launch's calls ++ calls that are not Create *)
+Lemma main_path_spec k pl s r s' e q : main_path k pl s r = (s', (e, q)) ->
+  exists rest,
+    e = r_effs r ++ launch_ex k pl r ++ rest /\ nocreate rest = true /\
+    (deleted_by_launch k pl r = true -> gone_or_deleting (pc s') = true) /\
+    vw s' = vw s.
+Proof.
+  unfold main_path, subs. destruct (finish pl (r_im r) _) as [r' q'] eqn:F. intros H. inversion H; subst; clear H.
+  apply finish_spec in F. destruct F as (_ & _ & _ & (x & Hx & Nx) & Hpc).
+  destruct (after_launch_quiet k pl (launch k pl r)) as [_ _ _ _ (y & Hy & Ny) Hrel _ _ _ _ _].
+  exists (y ++ x). repeat split.
+  - rewrite Hx, Hy, launch_effs, <- !app_assoc. reflexivity.
+  - unfold nocreate in *. rewrite forallb_app, Ny, Nx. reflexivity.
+  - intros Hd. simpl. rewrite launch_pc, Hd in Hrel.
+    pose proof (god_pc_rel _ _ Hrel (god_del_claim _)) as G.
+    destruct Hpc as [->|(p & Hp & ->)]; [exact G|].
+    rewrite Hp in G. simpl in *. destruct (merge_flags p (r_im r) (r_im (liveness k pl (initialization k pl (registration k pl (launch k pl r)))))) as [_ ->].
+    exact G.
+Qed.
+
+Lemma launch_ex_cap k pl r post :
+  (deleted_by_launch k pl r = true -> gone_or_deleting post = true) ->
+  forall rest, nocreate rest = true -> cap_deletes_b post (launch_ex k pl r ++ rest) = true.
+Proof.
+  unfold deleted_by_launch. unfold launch_ex. intros H rest Hr.
+  repeat bm; simpl in *; try (apply nocreate_cap; exact Hr);
+    rewrite ?(nocreate_cap _ _ Hr); try reflexivity;
+    destruct (eff_wr (r_pc r) (f_del_launch pl)); simpl in *; try reflexivity; rewrite H; reflexivity.
+Qed.
+
+Lemma unfinalize_nocreate pl s r s' e q : unfinalize pl s r = (s', (e, q)) ->
+  exists x, e = r_effs r ++ x /\ nocreate x = true.
+Proof.
+  unfold unfinalize. intros H. repeat bmh H; inversion H; subst; clear H; simpl;
+  eexists; split; reflexivity.
+Qed.
+
+Lemma finalize_nocreate k pl s v s' e q : finalize k pl s v = (s', (e, q)) -> nocreate e = true.
+Proof.
+  unfold finalize. intros H.
+  repeat bmh H;
+    try (inversion H; subst; clear H; simpl; unfold nocreate; rewrite ?forallb_app; reflexivity);
+    try (apply unfinalize_nocreate in H; destruct H as (x & -> & Nx); simpl;
+         unfold nocreate in *; rewrite ?forallb_app; simpl; rewrite ?Nx; reflexivity).
+Qed.
+
+(* Theorem (per reconcile): Create only under the finalizer; capacity errors delete. *)
+Lemma reconcile_frame k pl s s' e q : reconcile k pl s = (s', (e, q)) ->
+  (forall v, vw s = Some v -> c_fin v = true -> c_del v = false -> has_fin (pc s) = true) ->
+  create_guarded_b (has_fin (pc s)) e = true /\ cap_deletes_b (pc s') e = true.
+Proof.
+  unfold reconcile. intros H Inv.
+  destruct (vw s) as [v|] eqn:Ev; [|inversion H; subst; split; reflexivity].
+  destruct (negb (k_managed k)); [inversion H; subst; split; reflexivity|].
+  destruct (c_del v) eqn:Ed.
+  { apply finalize_nocreate in H. split; [apply nocreate_guarded|apply nocreate_cap]; exact H. }
+  destruct (c_fin v) eqn:Ef.
+  - apply main_path_spec in H. destruct H as (rest & -> & Nr & Hd & _). simpl.
+    rewrite (Inv v eq_refl Ef Ed). split; [apply guarded_true|].
+    apply launch_ex_cap; assumption.
+  - simpl in H. destruct (eff_wr (pc s) (f_fin pl)) eqn:Ew.
+    + destruct (pc s) as [p|] eqn:Ep; [|inversion H; subst; split; reflexivity].
+      apply main_path_spec in H. destruct H as (rest & -> & Nr & Hd & _). simpl. split.
+      * apply guarded_true.
+      * apply launch_ex_cap; assumption.
+    + inversion H; subst. split; reflexivity.
+    + destruct (pc s); inversion H; subst; split; reflexivity.
+    + inversion H; subst. split; reflexivity.
 Qed.
